@@ -829,6 +829,10 @@ class Parent(Entity):  # A System, Zone, DhwZone or a UfhController
                 raise exc.SystemSchemaInconsistent(
                     f"{self} changed htg_valve (from {self._htg_valve} to {child})"
                 )
+            if self._dhw_valve is child:  # one relay, one role
+                raise exc.SystemSchemaInconsistent(
+                    f"{self}: {child} is the dhw_valve (cannot be the htg_valve too)"
+                )
             self._htg_valve = child
 
         elif child_id == FA:  # DHW zone (DHW valve)
@@ -837,6 +841,10 @@ class Parent(Entity):  # A System, Zone, DhwZone or a UfhController
             if self._dhw_valve and self._dhw_valve is not child:
                 raise exc.SystemSchemaInconsistent(
                     f"{self} changed dhw_valve (from {self._dhw_valve} to {child})"
+                )
+            if self._htg_valve is child:  # one relay, one role
+                raise exc.SystemSchemaInconsistent(
+                    f"{self}: {child} is the htg_valve (cannot be the dhw_valve too)"
                 )
             self._dhw_valve = child
 
